@@ -320,6 +320,7 @@ def _run_stream_init_sync(
                 app._token_key,
                 auth,
                 stream_id,
+                method_name=method_name,
                 now=minted_at,
             )
             # Warm the cache with the objects we already hold, so this stream's
@@ -334,6 +335,7 @@ def _run_stream_init_sync(
                     result.input_schema,
                     stream_id,
                     minted_at if app._token_ttl > 0 else None,
+                    method_name,
                 ),
                 time.time(),
             )
@@ -548,7 +550,7 @@ def _run_stream_exchange_sync(
             resolved_call,
             call_id,
             request_state_bytes,
-        ) = _unpack_and_recover_state(app, token, call_token, state_info, auth)
+        ) = _unpack_and_recover_state(app, token, call_token, state_info, auth, method_name)
         output_schema = resolved_call.output_schema
         input_schema = resolved_call.input_schema
         stream_id = resolved_call.stream_id
@@ -1157,6 +1159,7 @@ def _unpack_and_recover_state(
     call_token: bytes | None,
     state_info: _StateInfo,
     auth: AuthContext | None,
+    method_name: str | None = None,
 ) -> tuple[StreamState, _ResolvedCall, bytes, bytes]:
     """Open a cursor token, resolve its call, and rebuild the state object.
 
@@ -1185,6 +1188,8 @@ def _unpack_and_recover_state(
             concrete class is resolved from the numeric tag embedded in
             ``state_bytes``.
         auth: Authenticated identity for the current request.
+        method_name: The stream method whose ``/exchange`` received the
+            request; a call minted by another method is refused.
 
     Returns:
         ``(state_object, resolved_call, call_id, state_bytes)``.
@@ -1205,8 +1210,12 @@ def _unpack_and_recover_state(
 
     now = time.time()
     resolved = app._call_state_cache.get(call_id, auth, now)
+    if resolved is not None and resolved.method_name != method_name:
+        # Another method's stream.  Fall through to the call token, which is
+        # sealed for the method that minted it and so refuses to open here.
+        resolved = None
     if resolved is None:
-        resolved = _resolve_call_from_token(app, call_token, call_id, state_info, auth)
+        resolved = _resolve_call_from_token(app, call_token, call_id, state_info, auth, method_name)
         app._call_state_cache.put(call_id, auth, resolved, now)
 
     if resolved.stream_id:
@@ -1247,6 +1256,7 @@ def _resolve_call_from_token(
     expected_call_id: bytes,
     state_info: _StateInfo,
     auth: AuthContext | None,
+    method_name: str | None = None,
 ) -> _ResolvedCall:
     """Open a client-supplied call token — the cache-miss path.
 
@@ -1257,6 +1267,8 @@ def _resolve_call_from_token(
         state_info: The method's state class (or union tuple), which
             declares the call-state type to deserialize into.
         auth: Authenticated identity for the current request.
+        method_name: The stream method whose ``/exchange`` received the
+            request; the token opens only for the method that minted it.
 
     Returns:
         The parsed :class:`_ResolvedCall`.
@@ -1281,7 +1293,9 @@ def _resolve_call_from_token(
         input_schema_bytes,
         token_call_id,
         stream_id,
-    ) = _open_call_token(call_token, app._token_key, _compute_call_aad(auth), app._token_ttl, created_at_out=created_at)
+    ) = _open_call_token(
+        call_token, app._token_key, _compute_call_aad(auth, method_name), app._token_ttl, created_at_out=created_at
+    )
     # Constant-time compare: the ids are both server-minted and already
     # authenticated, so this is belt-and-braces against a client pairing two
     # of its own tokens from different streams.
@@ -1324,5 +1338,5 @@ def _resolve_call_from_token(
             ) from exc
 
     return _ResolvedCall(
-        call_state, output_schema, input_schema, stream_id, created_at[0] if app._token_ttl > 0 else None
+        call_state, output_schema, input_schema, stream_id, created_at[0] if app._token_ttl > 0 else None, method_name
     )
